@@ -58,19 +58,19 @@ CONFIGS = {
 # property -> (quick configs, extra thorough configs); "cfg:checked" selects the checked profile
 PLAN = {
     "C01": (["default", "compact", "radix+format", "compact+radix+format", "pow2", "compact+nostd"], ["format", "radix", "compact+radix", "nostd", "compact+pow2"]),
-    "C02": (["default", "compact", "radix+format"], ["pow2", "format", "radix", "compact+radix+format", "nostd"]),
-    "C03": (["default", "compact", "pow2", "radix", "compact+radix", "radix+format"], ["compact+radix+format", "nostd"]),
+    "C02": (["default", "compact", "radix+format", "radix+format:checked", "compact:checked"], ["pow2", "format", "radix", "compact+radix+format", "nostd"]),
+    "C03": (["default", "compact", "pow2", "radix", "compact+radix", "radix+format", "radix+format:checked"], ["compact+radix+format", "nostd"]),
     "C05": (["pow2", "radix", "compact+radix", "radix+format"], ["compact+radix+format", "compact+pow2", "pow2+format", "radix+nostd", "compact+radix+nostd"]),
-    "C06": (["pow2", "radix", "compact+radix", "radix+format"], ["compact+pow2", "pow2+format", "compact+radix+format", "radix+nostd"]),
-    "C07": (["radix", "compact+radix", "radix+format", "radix+nostd"], ["compact+radix+format", "compact+radix+nostd"]),
+    "C06": (["pow2", "pow2:checked", "radix", "compact+radix", "radix+format"], ["compact+pow2", "pow2+format", "compact+radix+format", "radix+nostd"]),
+    "C07": (["radix", "compact+radix", "radix+format", "radix+format:checked", "radix+nostd"], ["compact+radix+format", "compact+radix+nostd"]),
     "C08": (["default", "compact", "radix", "format", "radix+format"], ["pow2", "compact+radix+format", "pow2+format"]),
     "C09": (["default", "compact", "compact:checked", "pow2", "pow2:checked", "format", "radix+format", "radix+format:checked"], ["compact+radix+format", "default:checked", "radix", "compact+radix+format:checked", "compact+format"]),
     "C10": (["default", "default:checked", "pow2:checked", "radix+format", "radix+format:checked", "compact+radix+format"], ["compact", "compact:checked", "format", "compact+radix+format:checked", "radix", "pow2+format"]),
     "C11": (["default", "compact", "radix+format", "compact+radix+format"], ["format", "radix", "pow2+format"]),
     "C12": (["format", "radix+format", "compact+radix+format"], ["pow2+format", "compact+format"]),
     "C13": (["radix+format", "format", "compact+radix+format"], ["pow2+format", "compact+format"]),
-    "C14": (["default", "compact", "radix+format"], ["pow2", "radix", "compact+radix+format", "format"]),
-    "C15": (["default", "format", "radix+format", "compact+radix+format"], ["compact", "radix", "pow2+format"]),
+    "C14": (["default", "compact", "compact:checked", "radix+format", "radix+format:checked"], ["pow2", "radix", "compact+radix+format", "format"]),
+    "C15": (["default", "format", "radix+format", "radix+format:checked", "compact+radix+format"], ["compact", "radix", "pow2+format"]),
     "C16": (["default", "nostd", "compact", "compact+nostd", "pow2", "radix", "format", "radix+format", "compact+radix+format"], ["compact+format", "pow2+format", "compact+pow2", "compact+radix", "compact+pow2+format", "pow2+nostd", "radix+nostd", "format+nostd", "compact+format+nostd", "pow2+format+nostd", "radix+format+nostd", "compact+pow2+nostd", "compact+radix+nostd", "compact+pow2+format+nostd", "compact+radix+format+nostd"]),
     "C17": (["default", "radix+format", "compact+radix+format"], ["compact", "pow2", "format", "radix", "nostd"]),
     "C18": (["default", "pow2", "radix", "format", "radix+format"], ["compact+radix+format", "pow2+format", "nostd"]),
